@@ -79,4 +79,56 @@ def showTarget (byName : Bool) (m : Mod) (n : String) : Option Recipe :=
   | some a => if byName then runTarget m a.target.name else some a.target
   | none => findRecipe m n
 
+/-! ### what `--list` displays of a recipe (`Subcommand::list_module`, `Recipe::doc`, `Recipe::groups`) -/
+
+/-- what is declared in front of and in a recipe's header -/
+structure Decl where
+  name : String
+  params : List String                 -- each parameter as written: `a`, `$a`, `b='x'`, `*c`
+  comment : Option String              -- the `# …` line directly above
+  docAttr : Option (Option String)     -- `[doc]` = `some none`, `[doc("x")]` = `some (some x)` (the string's value)
+  groups : List String                 -- `[group(…)]` attributes, in name order, distinct
+  isPrivate : Bool
+  deriving Repr, DecidableEq, Inhabited
+
+/-- `Recipe::doc`: the `[doc]` attribute, if there is one, decides — also when it is empty -/
+def Decl.doc (d : Decl) : Option String :=
+  match d.docAttr with
+  | some a => a
+  | none => d.comment
+
+/-- an alias as `list_module` sees it: its name, privacy, and whether its target is that recipe of
+this very module -/
+structure AliasOf where
+  name : String
+  isPrivate : Bool
+  targetName : String
+  targetHere : Bool
+  deriving Repr, DecidableEq, Inhabited
+
+structure Entry where
+  heading : Option String     -- the `[group]` heading the entry stands under
+  signature : String          -- name and parameters
+  doc : Option String
+  aliases : List String
+  deriving Repr, DecidableEq, Inhabited
+
+def joinSp : List String → String
+  | [] => ""
+  | [x] => x
+  | x :: xs => x ++ " " ++ joinSp xs
+
+def aliasesFor (as : List AliasOf) (d : Decl) : List String :=
+  (as.filter (fun a => !a.isPrivate && a.targetHere && a.targetName = d.name)).map AliasOf.name
+
+/-- the entries of one recipe: none if private, else one under each of its groups, or one without
+heading -/
+def entriesOf (as : List AliasOf) (d : Decl) : List Entry :=
+  if d.isPrivate then []
+  else
+    let e (h : Option String) : Entry := ⟨h, joinSp (d.name :: d.params), d.doc, aliasesFor as d⟩
+    match d.groups with
+    | [] => [e none]
+    | gs => gs.map (fun g => e (some g))
+
 end Just.Listing
